@@ -65,6 +65,11 @@ _g("G-MUT", [("S", "A b"), ("A", "S a"), ("A", "a"), ("S", "b"), ("S", "A A")], 
 # small ones used where path counts multiply
 _g("G-S1", [("S", "a S"), ("S", "a"), ("S", "")], note="tiny right recursion")
 _g("G-S2", [("S", "A b"), ("A", "a"), ("A", ""), ("S", "S S")], note="tiny non-linear")
+_g("G-NUC", [("S", "A b"), ("A", "B"), ("B", "A"), ("A", ""), ("B", "a"), ("S", "A")], note="nullable unary cycle A<->B (linear cyclic null system)")
+_g("G-INT", [("S", (0, "S")), ("S", (1,)), ("S", ()), ("S", ("A", 0)), ("A", (1, 1))], V=(0, 1), note="integer tokens including the falsy token 0")
+_g("G-DUP2", [("S", "A S"), ("S", "A S"), ("S", "a"), ("A", "b"), ("A", ""), ("S", "a")], note="a duplicated rule with nonterminals in its body")
+_g("G-HEADLESS", [("S", "A"), ("A", "a"), ("A", "Z"), ("S", "Z b"), ("A", "S")], note="symbol Z occurs only in rule bodies (neither terminal nor head)")
+_g("G-REP", [("S", "A"), ("S", "A A"), ("A", "a"), ("A", "b A"), ("S", "A S A"), ("S", "b")], note="same symbol set with different multiplicities in consecutive rules")
 _g("G-MB", [("S", "é S"), ("S", "ab"), ("S", "€ T"), ("T", "𝄞"), ("T", "x"), ("S", "é")],
    V=("é", "ab", "€", "𝄞", "x"), note="multi-character and multi-byte terminals")
 
@@ -107,8 +112,12 @@ _a("A-DEAD", [(0, "a", 1), (0, "a", 2), (1, "b", 3), (0, "b", 5), (4, "a", 1)], 
 _a("A-D3", [(0, "a", 1), (0, "a", 2), (1, "b", 3), (2, "b", 3)], init=[0], final=[3], note="a*b + a*c style: two paths, 4 arc weights")
 _a("A-D4", [(0, "a", 1), (0, "a", 2), (0, "b", 1), (0, "b", 2), (1, "c", 3), (2, "c", 3)], init=[0], final=[3],
    note="two prefixes reach the same state set {1,2} with different residual proportions")
-_a("A-MB", [(0, "é", 1), (0, "è", 1), (0, "a", 1), (1, "€", 2), (1, "₭", 2), (2, "𝄞", 0), (1, EPS, 2), ("a", "é", "b")],
+_a("A-CYC", [(0, "a", 1), (0, "a", 2), (1, "b", 0), (2, "b", 0), (0, "c", 3)], init=[0], final=[3],
+   note="cyclic but determinisable: both branches return to state 0 (residuals renormalise to the same subset)")
+_a("A-MB", [(0, "é", 1), (0, "è", 1), (0, "a", 1), (1, "€", 2), (1, "₭", 2), (2, "𝄞", 0), (1, EPS, 2), ("a", "é", "b"), (0, "é", 2), (1, "℃", 0)],
    init=[0, "a"], final=[2, "b"], note="1-4 byte labels with shared byte prefixes, state names equal to symbols")
+_a("A-MB4", [(0, "€", 1), (0, "℃", 1), (0, "日", 2), (0, "本", 2), (1, "x", 3), (2, "y", 3), (0, "₭", 2)], init=[0], final=[3],
+   note="3-byte characters sharing the lead byte but differing in the middle byte (e2 82 ac / e2 84 83; e6 97 a5 / e6 9c ac)")
 _a("A-MB2", [("p0", "é", "p1"), ("p0", "a", "p1"), ("p1", "x", "p2")], init=["p0"], final=["p2"], note="terminal A: é|a then x")
 _a("A-MB3", [("r0", "ü", "r1"), ("r1", "y", "r2")], init=["r0"], final=["r2"], note="terminal B: ü then y")
 _a("A-S1", [(0, "a", 1), (1, "b", 0), (0, EPS, 1)], init=[0], final=[1], note="small cycle")
@@ -142,6 +151,8 @@ _t("T-F4", [(0, ("a", "c"), 1), (1, ("b", E_), 2), (2, (E_, "d"), 3), (3, ("a", 
 _t("T-G4", [(0, ("c", "e"), 0), (0, ("d", E_), 0)], init=[0], final=[0], note="1-state second operand")
 
 
+_t("T-F5", [(0, (E_, E_), 0), (0, ("a", "c"), 0), (0, ("b", "d"), 1), (1, (E_, E_), 1), (1, ("a", E_), 0)], init=[0], final=[0, 1],
+   note="eps:eps self-loops on the initial state and on a final state")
 _t("T-R1", [(0, ("c", "a"), 1), (0, (E_, "a"), 1), (1, ("d", "b"), 1), (1, ("c", E_), 2), (1, (E_, E_), 2), (0, ("d", "b"), 2)],
    init=[0], final=[2, 1], note="output alphabet {a,b}: grammar on the output side")
 
